@@ -104,7 +104,7 @@ def walk(c, name=''):
         f = _format(c.subcon.subcon)
         if c.raise_on_unrecognized:
             return [{'t': 'field', 'name': name, 'kind': f[0], 'adapter': ['strict', sorted(int(m) for m in c.enum_cls)], 'conv': ['int']}]
-        return [{'t': 'field', 'name': name, 'kind': f[0], 'adapter': ['id'], 'conv': ['int']}]
+        return [{'t': 'field', 'name': name, 'kind': f[0], 'adapter': ['id'], 'conv': ['int'], 'from_enum': sorted(int(m) for m in c.enum_cls)}]
     if isinstance(c, C.FormatField):
         k, _ = _format(c)
         if k == 'F32':
@@ -711,35 +711,26 @@ def describe_struct(key, cls, pr):
 
 # ------------------------------------------------------------------------------------------------
 
-def _src(fn):
-    import inspect, textwrap
-    try:
-        return textwrap.dedent(inspect.getsource(fn))
-    except Exception:
-        return ''
-
-
-def uses_construct(cls):
-    def via(fn, generic):
-        t = _src(fn)
-        return 'Construct' in t or ('MessagePayload.%s(' % generic) in t
-    return via(cls.unpack, 'unpack') and via(cls.pack, 'pack')
-
-
-def value_dependent_unpack(cls):
-    """unpack() contains an `if` on something other than message_version: its effect on the fields is control
-    flow the description language does not carry"""
-    import ast
-    try:
-        tree = ast.parse(_src(cls.unpack))
-    except SyntaxError:
-        return True
-    for node in ast.walk(tree):
-        if isinstance(node, (ast.If, ast.IfExp)):
-            names = {n.id for n in ast.walk(node.test) if isinstance(n, ast.Name)} | {n.attr for n in ast.walk(node.test) if isinstance(n, ast.Attribute)}
-            if names - {'message_version', 'self', 'MessagePayload', '_UNSPECIFIED_VERSION'}:
-                return True
-    return False
+def validate_construct_description(cls, items, pr):
+    """The class may carry a Construct it does not use for its own pack()/unpack() (MeasurementDetails): confirm by
+    behaviour that the walked description is what unpack does - lenient enum fields must accept an unknown value,
+    strict ones must refuse it."""
+    fixed = sum(isize(i) for i in items)
+    base = bytes(fixed)
+    for it in items:
+        if it['t'] != 'field' or it.get('is_count') or KSIZE[it['kind']] > 2:
+            continue
+        w = KSIZE[it['kind']]
+        if it['adapter'][0] == 'strict':
+            unknown = next(u for u in range(1 << (8 * w)) if u not in [m % (1 << (8 * w)) for m in it['adapter'][1]])
+            b = bytearray(base); b[it['off']:it['off'] + w] = unknown.to_bytes(w, 'little')
+            if pr.parse(bytes(b)) is not None:
+                raise Inexpressible('field %s: the construct is strict but unpack accepts %d' % (it['name'], unknown))
+        elif it['adapter'] == ['id'] and it.get('from_enum'):
+            unknown = next(u for u in range((1 << (8 * w)) - 1, 0, -1) if u not in it['from_enum'])
+            b = bytearray(base); b[it['off']:it['off'] + w] = unknown.to_bytes(w, 'little')
+            if pr.parse(bytes(b) + bytes(64)) is None:
+                raise Inexpressible('field %s: the construct is lenient but unpack refuses %d' % (it['name'], unknown))
 
 
 def detect_rewrite(cls, items, pr):
@@ -876,8 +867,6 @@ def describe_container(key, cls, con, pr):
 
 
 def find_construct(cls):
-    if not uses_construct(cls):
-        return None
     c = getattr(cls, 'Construct', None)
     if isinstance(c, C.Construct):
         return c
@@ -904,15 +893,22 @@ def describe(key, cls):
         items = describe_container(key, cls, con, pr)
         src = 'construct+registry'
         fmts = []
-    elif con is not None:
-        items = describe_construct(key, cls, con, pr)
-        if value_dependent_unpack(cls) and not detect_rewrite(cls, items, pr):
-            raise Inexpressible('unpack() post-processes the parsed fields under a value-dependent condition that is not a prefix rewrite')
-        src = 'construct'
-        fmts = []
     else:
-        items, fmts = describe_struct(key, cls, pr)
-        src = 'struct+probing'
+        items, why = None, None
+        if con is not None:
+            try:
+                items = describe_construct(key, cls, con, pr)
+                validate_construct_description(cls, items, pr)
+                detect_rewrite(cls, items, pr)      # unpack-side rewriting of a byte-string part, identified by probing
+                src, fmts = 'construct', []
+            except Inexpressible as e:
+                items, why = None, str(e)
+        if items is None:
+            try:
+                items, fmts = describe_struct(key, cls, pr)
+                src = 'struct+probing'
+            except Inexpressible as e:
+                raise Inexpressible(why if why is not None else str(e))
     return {'key': key, 'source': src, 'greedy': greedy, 'items': items, 'formats': fmts}
 
 
